@@ -418,6 +418,10 @@ func (x *bvCtx) operandText(v ssa.Value) string {
 		if kv, ok := bvConst(bv); ok {
 			return fmt.Sprint(kv)
 		}
+		// consecutive wire octets assembled by shifts and ors are the integer a BigEndian call would read there
+		if id, ok := x.wireGroupOf(v); ok {
+			return x.leaves[id].Key
+		}
 		runs, ones, tops := runsOf(bv)
 		if len(runs) == 1 && len(ones) == 0 && len(tops) == 0 && runs[0].DstLo == 0 {
 			l := x.leaves[runs[0].Leaf]
@@ -688,6 +692,68 @@ func (c *Ctx) decodeStore(f *FA, x *bvCtx, t *recTable, fk string, val ssa.Value
 			return
 		}
 	case *ssa.MakeSlice:
+		// field = make([]byte, n); copy(field, <octets of the input>): the copy an append would have made, when
+		// the buffer is exactly as long as what is copied in
+		if isByteSlice(v.Type()) {
+			var cp *ssa.Call
+			n := 0
+			for _, b := range fn.Blocks {
+				for _, ins := range b.Instrs {
+					call, ok := ins.(*ssa.Call)
+					if !ok {
+						continue
+					}
+					if bi, ok := call.Call.Value.(*ssa.Builtin); !ok || bi.Name() != "copy" {
+						continue
+					}
+					dst := call.Call.Args[0]
+					same := dst == ssa.Value(v)
+					if !same {
+						if k, isF := fieldKeyOfLoad(dst); isF && k == fk && dominatesInstr(v, call) {
+							// a reload of the field the buffer was stored into, same object
+							if u, ok := dst.(*ssa.UnOp); ok {
+								if fa, ok := u.X.(*ssa.FieldAddr); ok {
+									for _, ref := range *v.Referrers() {
+										if st, ok := ref.(*ssa.Store); ok && st.Val == ssa.Value(v) {
+											if sa, ok := st.Addr.(*ssa.FieldAddr); ok && sa.X == fa.X && sa.Field == fa.Field {
+												same = true
+											}
+										}
+									}
+								}
+							}
+						}
+					}
+					if same {
+						cp = call
+						n++
+					}
+				}
+			}
+			if n == 1 && isByteSlice(cp.Call.Args[1].Type()) {
+				src := cp.Call.Args[1]
+				root, lo, hi, open := f.relSpan(src)
+				_, isParamOrPhi := root.(*ssa.Parameter)
+				if _, isPhi := root.(*ssa.Phi); isPhi {
+					isParamOrPhi = true
+				}
+				if rs, isSlice := root.(*ssa.Slice); isSlice && isOffsetCursor(rs) {
+					isParamOrPhi = true
+				}
+				if isParamOrPhi && f.LFOf(v.Len).key() == f.SliceLen(src).key() {
+					facts := f.FactsAt(cp.Block())
+					lo, hi = f.pin(lo, facts), f.pin(hi, facts)
+					hi = f.lengthSpelledEnd(lo, hi, facts)
+					seg := segRow{Field: fk, LoLF: lo, HiLF: hi, Open: open, Cond: cond, Pos: pos, Lo: c.symOffset(f, x, lo), Hi: c.symOffset(f, x, hi)}
+					if open {
+						seg.Hi = "end"
+					}
+					seg.Nested = x.rootKey(root)
+					t.Segs = append(t.Segs, seg)
+					return
+				}
+			}
+		}
 		// stream style (EAP-AKA'): handled by the token engine
 		return
 	case *ssa.Const:
